@@ -331,3 +331,34 @@ PROPS["C08"] = {
     "level_note": COMMON_NOTE,
     "design_ref": "DESIGN.md section 5, C08",
 }
+
+PROPS["C19"] = {
+    "skeleton_fns": ["httpserver_NewConfig", "httpserver_newRoute", "httpserver_NewRouteFromHandlerFunc", "httpserver_Config_getMux",
+                     "httpserver_Config_createServer", "httpserver_Runner_boot", "httpserver_Runner_reloadConfig", "httpserver_NewRunner",
+                     "composite_NewConfig", "composite_NewRunner", "composite_Runner_boot", "mw_wildcard_New", "mw_headers_New",
+                     "mw_headers_NewWithOperations", "mw_headers_WithSet", "mw_headers_WithAdd", "mw_headers_WithSetRequest",
+                     "mw_headers_WithAddRequest", "supervisor_New", "supervisor_WithStartupInitial", "supervisor_WithStartupTimeout",
+                     "supervisor_WithShutdownTimeout", "supervisor_PIDZero_blockUntilRunnableReady"],
+    "lean_modules": ["GoSup.Props.C19"],
+    "theorems": ["GoSup.Props.C19.c19_accepted_never_panics", "GoSup.Props.C19.c19_boot_never_panics",
+                 "GoSup.Props.C19.original_code_could_panic"],
+    "ties": [],
+    "legs": [{"name": "crash", "cmd": "crash"}],
+    "rule": "inputs from a grammar of valid, boundary and malformed values, each exercised under recover(): route sets (1-3 routes over 28 "
+            "patterns: duplicates, conflicting wildcards, method-qualified, {x...}, {$}, unbalanced braces, no leading slash, empty, "
+            "unicode, 10 kB) delivered at construction AND at reload time (through NewConfig in the callback, and as a raw struct copy "
+            "that bypasses it), then Run / request / Reload / Stop; supervisor duration options (negative, zero, 1 ns, huge) with a "
+            "Stateable runnable; header maps with nil / empty value lists and invalid names through request handling; wildcard "
+            "prefixes x request paths; composite configurations with nil / empty entry lists at construction and reload; listen "
+            "addresses x timeouts. muxPanics is learned from the real ServeMux per route sequence and handed to the model. Oracle: "
+            "Spec.C19.holds (no panic, no hang, acceptance as the model predicts). Non-trivial = anything but accept-and-run-normally; "
+            "distinct by input.",
+    "assumptions": ["ServeMux.Handle panics as a deterministic function of the registered pattern sequence (uninterpreted in the model)",
+                    "panics inside constructors themselves (e.g. httpcluster.WithSiphonBuffer(-1)) are outside the property: nothing was accepted"],
+    "trusted_base": [],
+    "level_text": "Theorems for ANY mux behaviour: a route set accepted by the (repaired) constructors never panics the mux at boot, and a "
+                  "configuration that bypassed the constructor is turned into ErrCreateConfig by boot's re-validation; the constructor "
+                  "logic is tied to the code by exercising generated inputs at construction and reload time.",
+    "level_note": COMMON_NOTE,
+    "design_ref": "DESIGN.md section 5, C19",
+}
